@@ -57,13 +57,19 @@ def gen_case(rng, n_ops):
            rng.choice([0, 1, 2, 3]), perkey, rng.choice([0, 48, 48, 48])]
     ops = ["cfg " + " ".join(map(str, cfg))]
     tag = 0
+    prev = {}
     for _ in range(n_ops):
         k = rng.choice(KEYS)
         r = rng.random()
         if r < 0.30:
             exp = rng.choice(["none", "none", 995, 999, 1000, 1001, 1002, 1003, 1004])
-            tag += 1
-            ops.append(f"put {k} {rng.choice([0, 1, 1, 2, 3, 4, 7, 8, 9])} {tag} {exp}")
+            if prev.get(k) and rng.random() < 0.3:
+                vlen, t = rng.choice(prev[k])       # republish a byte-identical value
+            else:
+                tag += 1
+                vlen, t = rng.choice([0, 1, 1, 2, 3, 4, 7, 8, 9]), tag
+            prev.setdefault(k, []).append((vlen, t))
+            ops.append(f"put {k} {vlen} {t} {exp}")
         elif r < 0.45:
             ops.append(f"get {k}")
         elif r < 0.80:
@@ -117,7 +123,7 @@ def oracle(case, out):
     bad = []
     cfg = None
     puts = {}               # key -> list of (step, vlen, tag, exp) in order
-    seen = {}               # key -> (step of the put last observed by get, its expiry)
+    seen = {}               # key -> (step of the last get that returned a record, its expiry)
     ref = {}                # key -> list of (dist, peer, addrs, expired?)
     local_keys = set()
     final_some = 0
@@ -153,25 +159,30 @@ def oracle(case, out):
                 if int(vlen) >= size:
                     v("record-size", f"stored value of {vlen} bytes with max_record_size {size}", i)
                 k = t[1]
-                src = [p for p in puts.get(k, []) if p[2] == int(tag) and p[1] == int(vlen)]
-                if not src and int(vlen) > 0:
-                    v("record-unknown", "get returned a record that was never put under this key", i)
-                if exp != "none" and int(exp) <= NOW:
+                e = None if exp == "none" else int(exp)
+                if not any(p[1] == int(vlen) and (p[2] == int(tag) or int(vlen) == 0) and p[3] == e for p in puts.get(k, [])):
+                    v("record-unknown", "get returned a record (value, expiry) that was never put under this key", i)
+                if e is not None and e <= NOW:
                     v("expired-record", f"get returned a record expired at {exp} (now {NOW})", i)
-                if src:
-                    j, _, _, e = src[-1]
-                    if k in seen and e is not None:
-                        j0, e0 = seen[k]
-                        # a stored record (observed) with expiry e0 may only be displaced by a record
-                        # expiring earlier via an intermediate record without expiry
-                        via_none = any(j0 < p[0] < j and p[3] is None and p[1] < size for p in puts[k])
-                        if j0 < j and e0 is not None and e < e0 and not via_none:
-                            v("ttl-regress", f"record expiring at {e0} replaced by one expiring at {e}", i)
-                    seen[k] = (j, e)
+                if k in seen:
+                    j0, e0 = seen[k]
+                    # a stored unexpired record with expiry e0 may only give way to one expiring earlier via an
+                    # intermediate record without expiry
+                    via_none = any(j0 < p[0] < i and p[3] is None and p[1] < size for p in puts[k])
+                    if e0 is not None and e is not None and e < e0 and not via_none:
+                        v("ttl-regress", f"record expiring at {e0} replaced by one expiring at {e}", i)
+                seen[k] = (i, e)
                 if has_sweep and i >= len(case) - n_final:
                     final_some += 1
             else:
-                seen.pop(t[1], None)
+                k = t[1]
+                if k in seen:
+                    j0, e0 = seen[k]
+                    via_none = any(j0 < p[0] < i and p[3] is None and p[1] < size for p in puts.get(k, []))
+                    if e0 is not None and e0 > NOW and not via_none:
+                        v("record-lost", f"unexpired record (expires {e0}) disappeared without having been replaced "
+                          "by a record without expiry", i)
+                seen.pop(k, None)
         elif t[0] in ("putprov", "putlocal"):
             k = t[1]
             if t[0] == "putprov":
